@@ -5,4 +5,6 @@ StructLeaves == {"H1", "H2", "P"}
 HeadLeaves == {"H1", "H2", "H3", "H4", "H5", "H6", "P"}
 AllConts == {"Q", "BL", "OL"}
 NoConts == {}
+ItemLeaves == {"P", "Tbl", "Code"}
+ListQuote == {"BL"}
 =============================================================================
